@@ -38,8 +38,12 @@ static int _add_reply(void *ctx, MPT_INTERFACE(convertable) *val, const MPT_INTE
 		}
 		return 0;
 	}
-	len = strlen(txt);
-	
+	/* character data first: long values have no string form */
+	else {
+		size_t max = 0;
+		txt = mpt_convertable_data(val, &max);
+		len = txt ? strnlen(txt, max) : 0;
+	}
 	if (!arr->_buf || !arr->_buf->_used) {
 		MPT_STRUCT(msgtype) hdr;
 		hdr.cmd = MPT_MESGTYPE(ParamGet);
@@ -56,7 +60,7 @@ static int _add_reply(void *ctx, MPT_INTERFACE(convertable) *val, const MPT_INTE
 		return MPT_ERROR(MissingBuffer);
 	}
 	if (txt
-	    && (len = strlen(txt))
+	    && len
 	    && !mpt_array_append(arr, len, txt)) {
 		mpt_log(0, _func, MPT_LOG(Error), "%s",
 		        MPT_tr("failed to add value"));
